@@ -116,6 +116,15 @@ def api_statements(rep):
     add(f"auto q = percent({v(50)}); out(as_raw_number(q));")
     add(f"constexpr auto q = meters({v(5)}) + meters({v(1)}); static_assert(q.in(meters) == {v(6)}, \"vf\"); out(q.in(meters));")
     add(f"using Q = Quantity<Meters, {R}>; out((double)sizeof(Q)); out((int)std::is_trivially_copyable<Q>::value); out((int)(std::is_same<std::common_type_t<Q, Quantity<Feet, {R}>>::Rep, {R}>::value));")
+    # odr-uses of the public static members and of every kind of compile-time label: in C++14 these need namespace-scope
+    # definitions to link (C++17 made them implicitly inline), so a missing definition is accepted by one standard and rejected by another
+    add(f"odr(decltype(meters({v(5)}))::unit); odr(decltype(meters_pt({v(5)}))::unit); odr(decltype(meters)::unit); odr(decltype(meters_pt)::unit);")
+    add(f"out(unit_label(Meters{{}} * mag<3>())); out(unit_label(Meters{{}} * mag<3>() / mag<7>())); out(unit_label(Kilo<Meters>{{}} / mag<5>()));")
+    add(f"out(unit_label(squared(Meters{{}}))); out(unit_label(root<2>(Meters{{}}))); out(unit_label(inverse(Seconds{{}}))); out(unit_label(pow<-2>(Seconds{{}}))); out(unit_label(Meters{{}} * Seconds{{}} / Feet{{}}));")
+    add(f"out(unit_label(common_unit(Meters{{}} * mag<3>(), Meters{{}} * mag<5>()))); out(unit_label(common_unit(Meters{{}}, Feet{{}}))); out(unit_label(common_point_unit(Celsius{{}}, Kelvins{{}})));")
+    add(f"out(mag_label(mag<3>() / mag<7>())); out(mag_label(mag<35>())); out(mag_label(Magnitude<Pi>{{}})); struct Unl : decltype(Meters{{}} * mag<2>()) {{}}; out(unit_label(Unl{{}}));")
+    add(f"std::ostringstream os; os << (meters * mag<3>())({v(2)}) << '|' << (meters / mag<4>())({v(2)}) << '|' << meters_pt({v(2)}) << '|' << SPEED_OF_LIGHT << '|' << mag<6>() << '|' << ZERO; out(os.str().c_str());")
+    add(f"odr(std::numeric_limits<Quantity<Meters, {R}>>::digits); odr(std::numeric_limits<Quantity<Meters, {R}>>::is_signed); odr(ZERO); odr(SPEED_OF_LIGHT); odr(meters); odr(hertz);")
     if rep == "double":
         add("auto q = celsius_pt(20.0); out(q.in(kelvins_pt)); out(q.in(fahrenheit_pt));")
         add("auto q = celsius_pt(20); out(q.coerce_in(milli(kelvins_pt)));")
@@ -149,6 +158,8 @@ static void out(const char *s) { printf("%d: %s\n", vf_stmt, s); }
 static void out(bool b) { printf("%d: %d\n", vf_stmt, (int)b); }
 template <typename T, typename = std::enable_if_t<std::is_integral<T>::value && !std::is_same<T, bool>::value>>
 static void out(T x) { printf("%d: %lld\n", vf_stmt, (long long)x); }
+template <typename T>
+static void odr(const T &t) { out((int)(static_cast<const volatile void *>(&t) != nullptr)); }  // binds a reference: an odr-use
 '''
 
 
@@ -170,6 +181,14 @@ def run(chk, which="C20"):
         sc = rnd.sample(consts, nc) if nc < len(consts) else list(consts)
         # constants need their units only inside the package; the program uses constants through .as<double>() only
         selections.append({"k": k, "units": su, "consts": sc, "io": (k % 2 == 0)})
+
+    # a unit header and a constant header may share a file stem (standard_gravity): select both at once, in a small package
+    ustem = {os.path.basename(units[u].header)[:-3]: u for u in names}
+    for c, h in consts:
+        st = os.path.basename(h)[:-3]
+        if st in ustem:
+            others = rnd.sample([n for n in names if n != ustem[st]], 2)
+            selections.append({"k": len(selections), "units": sorted([ustem[st]] + others), "consts": [(c, h)], "io": bool(len(selections) % 2)})
 
     def do_sel(sel):
         k = sel["k"]
@@ -194,6 +213,7 @@ def run(chk, which="C20"):
         for mode in ("single", "multi"):
             exe = os.path.join(sd, f"{mode}.exe")
             comp, flags = core.FLAVOURS["G_asan"]
+            flags = flags.replace("-O1", "-O0")  # keep every odr-use of a label / static member alive until link time (C++14)
             objs = []
             err = None
             for tu, extra in (("main", ""), ("second", "-DVF_SECOND_TU")):
@@ -329,22 +349,26 @@ def run(chk, which="C20"):
         body = API_PRE + "\n".join(p["text"] for p in accepted_everywhere) + "\nint main() {\n" + "\n".join(f"  vf_p{p['id']}();" for p in accepted_everywhere) + '\n  printf("done\\n");\n  return 0;\n}\n'
         src = core.write(os.path.join(d, f"api_{cname}.cc"), body)
 
-        def do_exec(cfg):
-            fl = "G_asan" if cfg[0] == core.GXX else "L_asan"
-            exe = os.path.join(d, f"api_{cname}_{'c' if 'clang' in cfg[0] else 'g'}{cfg[1][-2:]}.exe")
+        def do_exec(job):
+            cfg, opt = job
+            # sanitized -O1 build (values, UB, memory) and a plain -O0 build (every odr-use survives to the linker)
+            fl = ("G_asan" if cfg[0] == core.GXX else "L_asan") if opt == "san" else ("G_O0" if cfg[0] == core.GXX else "L_O0")
+            exe = os.path.join(d, f"api_{cname}_{'c' if 'clang' in cfg[0] else 'g'}{cfg[1][-2:]}_{opt}.exe")
             rc, se = core.build(src, exe, fl, std=cfg[1])
             if rc != 0:
-                return cfg, None, "build: " + (se.split("error:")[1][:250] if "error:" in se else se[:250])
+                und = sorted(set(re.findall(r"undefined reference to `[^']*'", se)))
+                return cfg, None, "build: " + ("; ".join(und)[:600] if und else (se.split("error:")[1][:250] if "error:" in se else se[:250]))
             rc, so, se = core.sh([exe], timeout=120, env=dict(os.environ, ASAN_OPTIONS="detect_leaks=0"))
             if rc != 0 or "done" not in so:
                 return cfg, None, f"run rc={rc}: {se[-300:]}"
             return cfg, so, None
 
-        outs = core.pmap(do_exec, all_cfgs, workers=len(all_cfgs))
+        outs = core.pmap(do_exec, [(c, o) for c in all_cfgs for o in ("san", "O0")], workers=len(all_cfgs) * 2)
         ref = None
         for cfg, so, err in outs:
             if err:
-                chk.violation(f"C20|api_program|rep={rep}|cfg={cfg[0]}:{cfg[1]}", msg=f"API-surface program for rep {rep} fails under {cfg[0]} {cfg[1]} although every statement compiles alone: {err}")
+                und = sorted(set(re.findall(r"undefined reference to `([^']*)'", err)))
+                chk.violation(f"C20|api_program|rep={rep}|cfg={cfg[0]}:{cfg[1]}" + (f"|undefined={und[0][:80]}" if und else ""), msg=f"API-surface program for rep {rep} fails under {cfg[0]} {cfg[1]} although every statement compiles alone: {err}")
                 continue
             if ref is None:
                 ref = (cfg, so)
